@@ -435,6 +435,9 @@ def main():
         seed = 1
     if seed == 0:
         seed = 20260928
+    if a[0] in ("run", "replay") and a[1] not in PROPS:
+        log("INCONCLUSIVE unknown property %s" % a[1])
+        return 2
     if a[0] == "run":
         return run_property(a[1], tier, seed)
     if a[0] == "replay":
